@@ -86,6 +86,13 @@ pub fn gen(ctx: &Ctx, rng: &mut Rng, out: &mut Vec<String>) {
             out.push(format!("c13.viewtext\t{}\t{}\t{}\t{p}", nats(&shape), bits(&data), enc(&o)));
         }
     }
+    // normalisation (and masking + normalisation) of spectra with more than 2^16 entries, as npy
+    for (i, shape) in [vec![257usize, 257], vec![65537], vec![100001]].into_iter().enumerate() {
+        if !ctx.tier_thorough && i == 2 { continue; }
+        let n: usize = shape.iter().product();
+        let data: Vec<f64> = (0..n).map(|j| ((j * 13 + i) % 97) as f64 + if j + 300 > n { 50.0 } else { 0.0 }).collect();
+        for mask in [false, true] { let o = Opts { mask, norm: true, ..Default::default() }; out.push(format!("c13.view\t{}\t{}\t{}", nats(&shape), bits(&data), enc(&o))); }
+    }
     let nspec = if ctx.tier_thorough { 400 } else { 40 };
     for si in 0..nspec {
         let shape = if si < 6 { vec![vec![3], vec![2, 3], vec![3, 3, 2], vec![2, 2, 3, 2], vec![1, 4], vec![5, 1, 2]][si].clone() }
